@@ -103,6 +103,17 @@ def gen(rng: random.Random, tier: str) -> dict:
             labels.append(d["label"])
             defs.append(d)
         blocks.append(defs)
+    # what happened to the instances BEFORE the history: they have parsed these very definitions into throw-away envs
+    # ("warm": anything remembered per destination/label is now there), then a link hook was reassigned and/or the
+    # reference rule was re-registered through the public API with terminator-chain membership
+    pre = {"warm": rng.random() < 0.4,
+           "nl_suffix": rng.choice(["?v=7", "#h"]) if rng.random() < 0.25 else None,
+           "ref_alt": rng.choice([["paragraph"], ["paragraph", "blockquote"], ["blockquote", "list"], []])
+           if rng.random() < 0.25 else None}
+    leads = [None] * len(blocks)
+    if pre["ref_alt"] and "paragraph" in pre["ref_alt"]:
+        # the rule may now interrupt a paragraph: a definition directly under a line of text
+        leads = [(f"lead text {b}" if rng.random() < 0.5 else None) for b in range(len(blocks))]
     n_env = rng.choice([1, 1, 2])
     n_inst = rng.choice([1, 1, 2])
     hist = []
@@ -124,7 +135,7 @@ def gen(rng: random.Random, tier: str) -> dict:
         base = rng.choice(pool)
         var, vk = _variant(rng, base)
         uses.append({"label": var, "vk": vk, "form": rng.choice(["full", "full", "collapsed", "shortcut", "image"])})
-    return {"cfg": cfg, "blocks": blocks, "n_env": n_env, "n_inst": n_inst, "hist": hist,
+    return {"cfg": cfg, "pre": pre, "leads": leads, "blocks": blocks, "n_env": n_env, "n_inst": n_inst, "hist": hist,
             "env_type": rng.choice(["dict", "dict", "userdict"]),
             "probe": {"inst": rng.randrange(n_inst), "env": rng.randrange(n_env), "doc": doc, "redefine": redefine,
                       "uses": uses}}
@@ -147,6 +158,25 @@ def _strip_maps_list(dups):
     return [{a: b for a, b in v.items() if a != "map"} for v in dups]
 
 
+def build_inst(rec, used: bool):
+    """An instance of the run's configuration; `used` ones have a past (see gen), the twin has none."""
+    md = docgen.build(rec["cfg"])
+    pre = rec.get("pre") or {}
+    if used and pre.get("warm"):
+        for defs in rec["blocks"]:
+            uses = " ".join(f"[t][{d['label']}] [t]({d['dest']}{' ' if d['title'] else ''}{d['title']})" for d in defs)
+            md.render(_block_text(defs) + "\n" + uses + "\n", {})
+    if pre.get("nl_suffix"):
+        orig, suffix = md.normalizeLink, pre["nl_suffix"]
+        md.normalizeLink = lambda url: orig(url) + suffix
+    if pre.get("ref_alt") is not None:
+        r = md.block.ruler
+        names = r.get_active_rules()
+        fn = r.getRules("")[names.index("reference")]
+        r.at("reference", fn, {"alt": list(pre["ref_alt"])})
+    return md
+
+
 def _first_link(md, src, env):
     toks = md.parse(src, env)
     for t in toks:
@@ -160,11 +190,21 @@ def _first_link(md, src, env):
 
 def execute(rec: dict, res: RunResult) -> None:
     mk = collections.UserDict if rec["env_type"] == "userdict" else dict
-    insts = [docgen.build(rec["cfg"]) for _ in range(rec["n_inst"])]
+    insts = [build_inst(rec, True) for _ in range(rec["n_inst"])]
+    pre = rec.get("pre") or {}
+    leads = rec.get("leads") or [None] * len(rec["blocks"])
+    suffix = pre.get("nl_suffix") or ""
+    if pre.get("warm"):
+        res.count("instances_with_a_past")
+    if suffix:
+        res.count("link_hook_reassigned_before_history")
+    if pre.get("ref_alt") is not None:
+        res.count("reference_rule_reregistered_with_alt")
     envs = [mk() for _ in range(rec["n_env"])]
     model: list[dict] = [dict() for _ in range(rec["n_env"])]     # key -> first definition (generator's knowledge)
     logs: list[list[str]] = [[] for _ in range(rec["n_env"])]
     seeded_blocks: list[set] = [set() for _ in range(rec["n_env"])]
+    lead_log: list[list] = [[] for _ in range(rec["n_env"])]
     if rec["env_type"] == "userdict":
         res.count("userdict_env")
     if rec["n_inst"] > 1 and len({h[0] for h in rec["hist"] if h[1] == rec["probe"]["env"]} | {rec["probe"]["inst"]}) > 1:
@@ -173,7 +213,8 @@ def execute(rec: dict, res: RunResult) -> None:
     # ---- the history: definition blocks parsed into caller-owned envs
     for k, (i, e, b) in enumerate(rec["hist"]):
         defs = rec["blocks"][b]
-        text = _block_text(defs)
+        lead = leads[b]
+        text = (lead + "\n" if lead else "") + _block_text(defs)
         for d in defs:
             for key in model[e]:
                 if not _agree(d["label"], model[e][key]["label"]):
@@ -183,7 +224,15 @@ def execute(rec: dict, res: RunResult) -> None:
         n_ref0 = len(env.get("references", {}))
         n_dup0 = len(env.get("duplicate_refs", []))
         toks = insts[i].parse(text, env)
-        if toks:
+        if lead:
+            res.count("definition_directly_under_paragraph_text")
+            if [t.type for t in toks] != ["paragraph_open", "inline", "paragraph_close"] or toks[1].content != lead:
+                # the paragraph was not interrupted as the alt-chain registration asks (or more than the lead ended up in
+                # it): nothing can be said about definitions here
+                res.count("discarded_lead_paragraph_not_interrupted")
+                res.events.append([k, "discarded"])
+                return
+        elif toks:
             res.count("discarded_block_not_pure_definitions")
             res.events.append([k, "discarded"])
             return
@@ -203,7 +252,7 @@ def execute(rec: dict, res: RunResult) -> None:
         # every definition recorded exactly once, with the map of its own lines, first one wins
         new_refs = list(refs.items())[n_ref0:]
         new_dups = list(dups)[n_dup0:]
-        line = 0
+        line = 1 if lead else 0
         for d in defs:
             nlines = d["text"].count("\n") + 1
             key = norm_model(d["label"])
@@ -226,13 +275,14 @@ def execute(rec: dict, res: RunResult) -> None:
                 res.fail("BOOKKEEPING", f"step {k}: definition {d['text']!r} occupies lines [{line}, {line + nlines}) of "
                                         f"{text!r} but was recorded with map {entry.get('map')}", "map")
                 return
-            if d["simple"] and (entry.get("href") != d["href"] or entry.get("title") != d["title_txt"]):
+            if d["simple"] and (entry.get("href") != d["href"] + suffix or entry.get("title") != d["title_txt"]):
                 res.fail("BOOKKEEPING", f"step {k}: definition {d['text']!r} recorded as href={entry.get('href')!r} "
                                         f"title={entry.get('title')!r}", "content")
                 return
             line += nlines
         seeded_blocks[e].add(b)
         logs[e].append(text)
+        lead_log[e].append(lead)
 
     # ---- the probe document
     p = rec["probe"]
@@ -248,10 +298,14 @@ def execute(rec: dict, res: RunResult) -> None:
     D = D + "\n\n".join(use_paras) + "\n\n" + p["doc"]
     seeded_keys = set(model[p["env"]])
     html_hist = md.render(D, env)
-    fresh = docgen.build(rec["cfg"])
+    fresh = build_inst(rec, False)
     env2 = mk()
     concat = "\n".join(logs[p["env"]]) + ("\n" if logs[p["env"]] else "") + D
     html_cat = fresh.render(concat, env2)
+    # lead paragraphs of the seeding parses are part of the one-go document: their own HTML (rendered alone on a
+    # never-used twin) comes first
+    lead_html = "".join(build_inst(rec, False).render(ld + "\n") for ld in lead_log[p["env"]] if ld)
+    html_hist = lead_html + html_hist
     res.events.append(["probe", html_hist])
     res.steps += 1
     if html_hist != html_cat:
@@ -298,7 +352,7 @@ def execute(rec: dict, res: RunResult) -> None:
         elif u["vk"] == "ws":
             res.count("label_whitespace_variant_resolved")
         if d["simple"]:
-            if got[1] != d["href"] or (got[2] or "") != d["title_txt"]:
+            if got[1] != d["href"] + suffix or (got[2] or "") != d["title_txt"]:
                 res.fail("FIRST_WINS", f"use {para!r} resolved to href={got[1]!r} title={got[2]!r} but the first "
                                        f"definition of the label is {d['text']!r}", "wrong-target")
                 return
@@ -331,7 +385,8 @@ class C16(Engine):
                   "stub": [], "simulated": ["the history of parses that wrote into the caller-owned env before the probe"]}
     expected_probes = ["seeded_twice", "label_case_variant_resolved", "label_whitespace_variant_resolved",
                        "duplicate_in_D_of_seeded_label", "multiline_definition", "userdict_env", "two_instances_one_env",
-                       "inline_form_compared"]
+                       "inline_form_compared", "instances_with_a_past", "link_hook_reassigned_before_history",
+                       "reference_rule_reregistered_with_alt", "definition_directly_under_paragraph_text"]
 
     def budget(self, tier):
         if tier == "quick":
@@ -374,6 +429,12 @@ class C16(Engine):
             yield {**rec, "cfg": base}
         if rec["env_type"] != "dict":
             yield {**rec, "env_type": "dict"}
+        pre = rec.get("pre") or {}
+        for key, simple in (("warm", False), ("nl_suffix", None)):
+            if pre.get(key) != simple:
+                yield {**rec, "pre": {**pre, key: simple}}
+        if pre.get("ref_alt") is not None and not any(rec.get("leads") or []):
+            yield {**rec, "pre": {**pre, "ref_alt": None}}
         if rec["n_inst"] > 1:
             yield {**rec, "n_inst": 1, "hist": [[0, e, b] for _, e, b in hist], "probe": {**p, "inst": 0}}
         if rec["n_env"] > 1:
